@@ -24,6 +24,9 @@ if wave:
             pass
     if items:
         avoid = "AVOID repeating these ideas, which other engineers already delivered for this property (pick different functions / different clauses / different trigger mechanisms):\n" + "\n".join(items) + "\n\n"
+emphasis = ""
+if wave in ("d", "e"):
+    emphasis = ("EMPHASIS for this round: earlier rounds already explored plain numeric-scale triggers (data in a tiny or huge unit, a large common offset, absolute-epsilon comparisons) and single-line special-case shortcuts. Prefer instead: (i) TWO COOPERATING SITES that each look fine alone (a producer and a consumer that silently disagree about a convention: index base, row/column order, which of two buffers is current, units of a tolerance, whether a count includes the item itself); (ii) defects that need a MULTI-STEP SEQUENCE of public API calls to show (fit, then transform/predict on OTHER data; fit twice with the same object or parameters; builder methods called in a particular order; serialise, restore, then use a rarely used method); (iii) behaviour that depends on a particular random schedule, seed value, iteration limit or early-exit path; (iv) defects confined to ONE variant of a parameter (one kernel, one solver, one distance, one criterion, f32 only, one search backend, a non-default Option/boolean) while all other variants stay correct.\n\n")
 print(f"""You are a test engineer assessing how well a verification effort can detect regressions in a Rust machine-learning library (a fork of SmartCore). Your scratch copy of the repository is the git worktree {wt} (already created; work ONLY there — do not read, list or modify anything under /verif or /repo, and do not look for other people's work elsewhere on disk). The sandbox is offline: always pass `--offline` to cargo.
 
 The library is supposed to satisfy this semantic property:
@@ -33,7 +36,7 @@ The library is supposed to satisfy this semantic property:
   Scope (what it quantifies over): {p['quantifier']['text']}
   Code it is anchored in: {', '.join(p['anchors']['files'])}
 
-{avoid}Task: produce TWO different, independent, realistic code changes (as a maintainer might plausibly introduce by mistake during a refactoring or "optimisation"), each of which
+{avoid}{emphasis}Task: produce TWO different, independent, realistic code changes (as a maintainer might plausibly introduce by mistake during a refactoring or "optimisation"), each of which
   (a) still compiles and still passes the existing unit-test suite unchanged: `cd {wt} && cargo test --lib --offline` must report 161 passed, 0 failed{feat};
   (b) makes the property above FALSE for some inputs — a genuine semantic violation of the statement within its stated scope, not a crash on out-of-scope input and not a change of unspecified behaviour;
   (c) needs something specific to manifest: an unusual but in-scope input (ties, duplicates, a particular shape, sign pattern, scale, parameter combination), a multi-step sequence of operations, a particular random schedule, or two cooperating sites that each look fine alone — NOT something ordinary use on typical data would expose at once. The two changes should touch different mechanisms (different functions / different clauses of the statement).
